@@ -117,17 +117,29 @@ def exec_op(op, dbmap, state, on_failure=None):
     reply = {}
     value = None
     vb = bool(op.get("verbose"))    # the library's own progress messages (logger.info) - must not matter
+    ck = {}
+    conn = None
+    if op.get("caller_txn"):
+        # the caller owns the connection and the transaction (the `cursor=` route the library uses for its nested calls):
+        # nothing may become durable before the caller commits, everything goes when the caller rolls back
+        import os
+        import sqlite3
+        conn = sqlite3.connect(os.fspath(db))
+        conn.row_factory = sqlite3.Row
+        cur = conn.cursor()
+        cur.execute("PRAGMA foreign_keys = ON")
+        ck = {"cursor": cur}
     try:
         if o == "adsorbate_to_db":
             a = build.make_adsorbate(op["ads"])
             reply["uploaded"] = content_adsorbate(a)
-            pgsql.adsorbate_to_db(a, db_path=db, verbose=vb, overwrite=op.get("overwrite", False),
+            pgsql.adsorbate_to_db(a, db_path=db, verbose=vb, **ck, overwrite=op.get("overwrite", False),
                                   autoinsert_properties=op.get("autoinsert_properties", True))
         elif o == "adsorbate_delete_db":
             target = build.make_adsorbate({"name": op["name"]}) if op.get("by") == "object" else op["name"]
-            pgsql.adsorbate_delete_db(target, db_path=db, verbose=vb)
+            pgsql.adsorbate_delete_db(target, db_path=db, verbose=vb, **ck)
         elif o == "adsorbates_from_db":
-            got = pgsql.adsorbates_from_db(db_path=db, verbose=vb)
+            got = pgsql.adsorbates_from_db(db_path=db, verbose=vb, **ck)
             value = [content_adsorbate(a) for a in got]
             if op.get("scribble"):
                 for a in got:
@@ -135,13 +147,13 @@ def exec_op(op, dbmap, state, on_failure=None):
         elif o == "material_to_db":
             m = build.make_material(op["mat"])
             reply["uploaded"] = content_material(m)
-            pgsql.material_to_db(m, db_path=db, verbose=vb, overwrite=op.get("overwrite", False),
+            pgsql.material_to_db(m, db_path=db, verbose=vb, **ck, overwrite=op.get("overwrite", False),
                                  autoinsert_properties=op.get("autoinsert_properties", True))
         elif o == "material_delete_db":
             target = build.make_material({"name": op["name"]}) if op.get("by") == "object" else op["name"]
-            pgsql.material_delete_db(target, db_path=db, verbose=vb)
+            pgsql.material_delete_db(target, db_path=db, verbose=vb, **ck)
         elif o == "materials_from_db":
-            got = pgsql.materials_from_db(db_path=db, verbose=vb)
+            got = pgsql.materials_from_db(db_path=db, verbose=vb, **ck)
             value = [content_material(m) for m in got]
             if op.get("scribble"):
                 for m in got:
@@ -149,15 +161,15 @@ def exec_op(op, dbmap, state, on_failure=None):
         elif o == "ptype_to_db":
             fn = {"adsorbate": pgsql.adsorbate_property_type_to_db, "material": pgsql.material_property_type_to_db,
                   "isotherm": pgsql.isotherm_property_type_to_db, "isotype": pgsql.isotherm_type_to_db}[op["table"]]
-            fn(dict(op["type_dict"]), db_path=db, verbose=vb, overwrite=op.get("overwrite", False))
+            fn(dict(op["type_dict"]), db_path=db, verbose=vb, **ck, overwrite=op.get("overwrite", False))
         elif o == "ptype_delete_db":
             fn = {"adsorbate": pgsql.adsorbate_property_type_delete_db, "material": pgsql.material_property_type_delete_db,
                   "isotherm": pgsql.isotherm_property_type_delete_db, "isotype": pgsql.isotherm_type_delete_db}[op["table"]]
-            fn(op["type"], db_path=db, verbose=vb)
+            fn(op["type"], db_path=db, verbose=vb, **ck)
         elif o == "ptypes_from_db":
             fn = {"adsorbate": pgsql.adsorbate_property_types_from_db, "material": pgsql.material_property_types_from_db,
                   "isotherm": pgsql.isotherm_property_types_from_db, "isotype": pgsql.isotherm_types_from_db}[op["table"]]
-            value = [dg.canon(d) for d in fn(db_path=db, verbose=vb)]
+            value = [dg.canon(d) for d in fn(db_path=db, verbose=vb, **ck)]
         elif o == "isotherm_to_db":
             if op.get("reuse_edit") and state.get("last_iso") is not None:
                 # the caller edits the isotherm object it uploaded last - in place - and uploads that same object again
@@ -167,7 +179,7 @@ def exec_op(op, dbmap, state, on_failure=None):
                 iso = build.make_isotherm(op["iso"])
             state["last_iso"] = iso
             reply["uploaded"] = content_isotherm(iso)
-            kw = dict(db_path=db, verbose=vb, autoinsert_material=op.get("autoinsert_material", True),
+            kw = dict(db_path=db, verbose=vb, **ck, autoinsert_material=op.get("autoinsert_material", True),
                       autoinsert_adsorbate=op.get("autoinsert_adsorbate", True))
             if op.get("via") == "method":
                 iso.to_db(**kw)
@@ -181,27 +193,27 @@ def exec_op(op, dbmap, state, on_failure=None):
                 spec.setdefault("meta", {})["bulk_k"] = float(i) + 0.5
                 iso = build.make_isotherm(spec)
                 ups.append(content_isotherm(iso))
-                pgsql.isotherm_to_db(iso, db_path=db, verbose=vb)
+                pgsql.isotherm_to_db(iso, db_path=db, verbose=vb, **ck)
                 ups[-1]["done"] = True
         elif o == "isotherm_delete_db":
             by = op.get("by", "id")
             if by == "id":
-                pgsql.isotherm_delete_db(op["iso_id"], db_path=db, verbose=vb)
+                pgsql.isotherm_delete_db(op["iso_id"], db_path=db, verbose=vb, **ck)
             elif by == "object":
                 iso = build.make_isotherm(op["iso"])
                 reply["target"] = content_isotherm(iso)
-                pgsql.isotherm_delete_db(iso, db_path=db, verbose=vb)
+                pgsql.isotherm_delete_db(iso, db_path=db, verbose=vb, **ck)
             else:  # through an isotherm object just retrieved
-                got = pgsql.isotherms_from_db(db_path=db, verbose=vb)
+                got = pgsql.isotherms_from_db(db_path=db, verbose=vb, **ck)
                 cs = sorted(((content_isotherm(g), k) for k, g in enumerate(got)), key=lambda t: (t[0]["loose"], t[1]))
                 reply["retrieved_n"] = len(cs)
                 if cs:
                     c, k = cs[op.get("pick", 0) % len(cs)]
                     reply["target"] = c
-                    pgsql.isotherm_delete_db(got[k], db_path=db, verbose=vb)
+                    pgsql.isotherm_delete_db(got[k], db_path=db, verbose=vb, **ck)
         elif o == "isotherms_from_db":
             crit = op.get("criteria") or None
-            got = pgsql.isotherms_from_db(criteria=dict(crit) if crit else None, db_path=db, verbose=vb)
+            got = pgsql.isotherms_from_db(criteria=dict(crit) if crit else None, db_path=db, verbose=vb, **ck)
             value = [content_isotherm(g) for g in got]
             if op.get("scribble"):
                 for g in got:
@@ -216,6 +228,14 @@ def exec_op(op, dbmap, state, on_failure=None):
     else:
         reply.update(_outcome(None))
         failed = False
+    if conn is not None:
+        try:
+            if op["caller_txn"] == "commit" and not failed:
+                conn.commit()
+            else:
+                conn.rollback()
+        finally:
+            conn.close()
     if failed:
         # An exception object keeps its traceback, the traceback keeps pyGAPS' frames, and those keep the cursor of a
         # connection pyGAPS has already closed: until that cycle is collected the connection lingers (and may hold a
